@@ -147,3 +147,28 @@ CHECKS = {
                      "a handshake is identified by (key id, salt); the 32-bit XOR-fold checksum is what is remembered"],
     ),
 }
+
+# Every property whose Props file states theorems about TRANSLATED Go functions names them in its trusted base
+# (the translator and the prelude are trusted; the ties are proved).
+_TRANSLATED = {
+    "C01": "matchesIP, cipherList.SnapshotForClientIP / MarkUsedByClientIP / Update, findEntry, findAccessKey, the function literal of NewShadowsocksStreamAuthenticator",
+    "C03": "findAccessKeyUDP",
+    "C04": "packetHandler.validatePacket, natmap.Get / set / del / Close",
+    "C06": "streamHandler.handleConnection (with the calls of its collaborators traced), drainErrToString",
+    "C07": "preHash, ReplayCache.Add / Resize, NewReplayCache, the function literal of NewShadowsocksStreamAuthenticator",
+    "C08": "serverSaltGenerator.splitSalt / IsServerSalt, MakeCipherEntry, the function literal of NewShadowsocksStreamAuthenticator",
+    "C09": "newCipherListFromConfig, MakeCipherEntry",
+    "C10": "Config.Validate",
+    "C15": "measuredConn.Read / Write / WriteTo / ReadFrom, streamHandler.handleConnection",
+    "C16": "packetHandler.validatePacket",
+    "C20": "GetIPInfoFromIP, GetIPInfoFromAddr",
+}
+for _p, _fns in _TRANSLATED.items():
+    _tb = list(CHECKS[_p].get("trusted_base", []))
+    _tb = [x for x in _tb if not x.startswith("Gen/Code.lean: Lean translations of")]
+    _tb.append("Gen/Code.lean: Lean translations of " + _fns + ", regenerated from the Go source on every run by extract/golean.go "
+               "(trusted translator: a typed-AST translation of a Go subset into `do` blocks of the Option monad, `none` = panic; what the function takes from "
+               "outside — the clock, opaque callees, interface methods, functions stored in fields — becomes a parameter, calls whose result is unused become an effect log) "
+               "over the run-time prelude Model/GoRT.lean (trusted meaning of Go maps, slices, ints, time, sync.Once, errors, effects); Proofs/Tie*.lean prove for all "
+               "inputs that the translation never panics (or panics exactly where stated) and does what the model / the stated closed form does")
+    CHECKS[_p]["trusted_base"] = _tb
